@@ -24,7 +24,11 @@ def call_replay(fn_spec, inputs):
     try:
         r = fn(inputs)
         return {'reproduced': bool(r.get('reproduced')), 'detail': str(r.get('detail', ''))}
-    except Exception:
+    except Exception as e:
+        tb = traceback.extract_tb(e.__traceback__)
+        inner = tb[-1].filename if tb else ''
+        if '/src/gemdat/' in inner:
+            return {'reproduced': True, 'detail': f'the code under test raised {type(e).__name__}: {e} at {inner.split("/src/")[-1]}:{tb[-1].lineno}'}
         return {'reproduced': False, 'detail': 'replay harness error:\n' + traceback.format_exc()}
 
 
